@@ -124,6 +124,33 @@ def apply_perturbation(resp, p):
         m = res.get("measures", {}).get(p[1])
         if m and isinstance(m.get("metadata"), dict):
             m["metadata"].pop("references", None)
+    elif kind == "mark_missing":  # ["mark_missing", raw_dim_idx, cat_idx]
+        _k, di, ci = p
+        cats = res["dimensions"][di]["type"].get("categories") or []
+        if ci < len(cats):
+            cats[ci]["missing"] = True
+    elif kind == "numeric_values":  # ["numeric_values", raw_dim_idx, [v0, v1, ...]] (None = unset)
+        _k, di, vals = p
+        cats = res["dimensions"][di]["type"].get("categories") or []
+        for cat, v in zip(cats, vals):
+            cat["numeric_value"] = v
+    elif kind == "cat_dates":  # ["cat_dates", raw_dim_idx]: make a categorical dimension a date series
+        _k, di = p
+        cats = res["dimensions"][di]["type"].get("categories") or []
+        n = 0
+        for cat in cats:
+            if not cat.get("missing"):
+                cat["date"] = "20%02d-%02d" % (20 + n // 12, 1 + n % 12)
+                n += 1
+    elif kind == "view_insertions":  # ["view_insertions", raw_dim_idx, [insertion dicts]]
+        _k, di, ins = p
+        refs = res["dimensions"][di].setdefault("references", {})
+        view = refs.get("view") or {}
+        view.setdefault("transform", {})["insertions"] = ins
+        refs["view"] = view
+    elif kind == "filter_stats":  # ["filter_stats", filtered_n, unfiltered_n]
+        res["filtered"] = {"unweighted_n": p[1], "weighted_n": p[1]}
+        res["unfiltered"] = {"unweighted_n": p[2], "weighted_n": p[2]}
     elif kind == "floatify":  # same numbers, other numeric type (1 -> 1.0): a refreshed export
         def fl(x):
             if isinstance(x, bool):
